@@ -13,7 +13,7 @@ E1_CLAUSE = ("every panic site (explicit panic/assert/unreachable, listed std pa
 def run_e1(ctx, rep, roots_fn, rule="E1", configs=None, min_roots=1, min_sites=1):
     reviewed = load_tsv("panics")
     rep.rule(rule, E1_CLAUSE)
-    seen = set()
+    seen = {}
     tot_roots = tot_sites = tot_fns = 0
     for cfg in (configs or ctx.configs):
         E = ctx.e1(cfg)
@@ -23,13 +23,16 @@ def run_e1(ctx, rep, roots_fn, rule="E1", configs=None, min_roots=1, min_sites=1
         tot_roots = max(tot_roots, len(roots)); tot_sites = max(tot_sites, len(sites)); tot_fns = max(tot_fns, len(parent))
         for s in sites:
             key = s.key()
-            if key in seen:
+            if seen.get(key) == "classified":
                 continue
-            seen.add(key)
             r = A.discharge(s)
             if r:
-                rep.ok(rule, key, how=r, loc=s.loc(), nontrivial=r not in TRIVIAL)
+                if key not in seen:
+                    rep.ok(rule, key, how=r, loc=s.loc(), nontrivial=r not in TRIVIAL)
+                    seen[key] = "auto"
                 continue
+            # not discharged in this configuration (even if an earlier configuration discharged it)
+            seen[key] = "classified"
             path = E.cg.path_to(parent, s.fn.key)
             chain = " -> ".join(k for (k, _, _) in path[:1] + path[-3:]) if len(path) > 4 else " -> ".join(k for (k, _, _) in path)
             rep.classify(rule, key, reviewed, loc=s.loc(),
@@ -39,7 +42,7 @@ def run_e1(ctx, rep, roots_fn, rule="E1", configs=None, min_roots=1, min_sites=1
             rule + "_roots": len(roots), rule + "_reachable_fns": len(parent), rule + "_sites": len(sites)})
     rep.floor(rule + " roots", tot_roots, min_roots)
     rep.floor(rule + " reachable sites", tot_sites, min_sites)
-    return seen
+    return set(seen)
 
 
 def by_names(E, names, crate="jiff"):
